@@ -62,6 +62,7 @@ THEOREMS = {
         "Shroud.Gen.Guards.guarded_statements_comment_only",
         "Shroud.Gen.Guards.option_uses_classified",
         "Shroud.Gen.Guards.comment_lists_clean",
+        "Shroud.Gen.Guards.no_guarded_append_decides_file",
         "Shroud.Gen.Guards.guards_found",
     ]
 }
@@ -273,10 +274,17 @@ def decl_variants(doc, thorough, r):
         for j in range(2 if thorough else 1):
             sub = r.sample(paths, k)
             res.append(("decl-some%d-%s" % (j, opt), {p: {opt: val} for p in sub}))
+    # options set together on the same declarations (inherited by the members of namespaces and classes)
+    for pair in (("debug", "debug_index"), ("doxygen", "debug"), ("literalinclude", "debug"),
+                 ("literalinclude", "debug", "debug_index", "doxygen")):
+        res.append(("decl-all-" + "+".join(pair), {p: {o: True for o in pair} for p in paths if len(p) == 1}))
+        nested = [p for p in paths if len(p) > 1]
+        if nested:
+            res.append(("decl-inner-" + "+".join(pair), {p: {o: True for o in pair} for p in r.sample(nested, max(1, len(nested) // 2))}))
     mix = {}
     for p in paths:
         if r.random() < 0.5:
-            mix[p] = {o: True for o in ("debug", "doxygen", "literalinclude") if r.random() < 0.5}
+            mix[p] = {o: True for o in ("debug", "debug_index", "doxygen", "literalinclude") if r.random() < 0.5}
     res.append(("decl-mix", mix))
     # the option on one specific member (first / middle / last) of every overload set
     sets = overload_sets(doc)
@@ -451,7 +459,7 @@ def _overload_set(r, base, tag, ret="void"):
     return out
 
 
-def gen_feature_lib(r, name):
+def gen_feature_lib(r, name, idx=0):
     """A C++ library description built from the features that option-guarded emitter code touches: overload
     sets whose members carry equal / partly equal / different / no cpp_if, fortran_generic, default-argument
     generics, classes (with cpp_if) holding overloaded methods, doxygen text blocks of several shapes,
@@ -499,6 +507,43 @@ def gen_feature_lib(r, name):
             FEATURES["class-cpp_if"] += 1
         FEATURES["class"] += 1
         decls.append(c)
+    # scopes that get their own output files and may hold nothing that needs generated code
+    kinds = ["ns-extern-C", "ns-fn-extern-C", "ns-enum-only", "ns-empty-class", "ns-nested-thin"]
+    thin = [kinds[(2 * idx) % 5], kinds[(2 * idx + 1) % 5]] + ([r.choice(kinds)] if r.random() < 0.3 else [])   # all five within three libraries
+    for k, kind in enumerate(thin):
+        FEATURES["thin-scope:" + kind] += 1
+        scal = [{"decl": "void set%d(int v)" % k}, {"decl": "double scale%d(double x, int n)" % k}]
+        if kind == "ns-extern-C":
+            decls.append({"decl": "namespace capi%d" % k, "options": {"C_extern_C": True}, "declarations": scal})
+        elif kind == "ns-fn-extern-C":
+            for d in scal:
+                d["options"] = {"C_extern_C": True}
+            decls.append({"decl": "namespace fapi%d" % k, "declarations": scal})
+        elif kind == "ns-enum-only":
+            decls.append({"decl": "namespace en%d" % k, "declarations": [{"decl": "enum Shade%d { LIGHT%d, DARK%d = 4 };" % (k, k, k)}]})
+        elif kind == "ns-empty-class":
+            decls.append({"decl": "namespace ec%d" % k, "declarations": [{"decl": "class Bare%d" % k, "declarations": []}]})
+        else:
+            decls.append({"decl": "namespace outer%d" % k, "declarations": [
+                {"decl": "int real%d(const std::string &s)" % k},
+                {"decl": "namespace inner", "options": {"C_extern_C": True}, "declarations": scal}]})
+    if r.random() < 0.6:
+        FEATURES["class-with-baseclass"] += 1
+        b = "Base%d" % r.randrange(9)
+        decls.append({"decl": "class " + b, "declarations": [{"decl": b + "()"}, {"decl": "int baseMethod(int i)"}]})
+        dv = {"decl": "class Derived%s : public %s" % (b[-1], b), "declarations": [
+            {"decl": "Derived%s()" % b[-1]}, {"decl": "double derivedMethod(double d)"}]}
+        if r.random() < 0.5:
+            dv["cpp_if"] = "if defined(HAVE_DERIVED)"
+        decls.append(dv)
+    if r.random() < 0.6:
+        FEATURES["struct"] += 1
+        st = {"decl": "struct Pair%d { int ifield; double dfield; };" % r.randrange(9)}
+        pa = r.choice(["class", "numpy", None])
+        if pa:
+            st["options"] = {"PY_struct_arg": pa}
+            FEATURES["struct-PY_struct_arg:" + pa] += 1
+        decls.append(st)
     r.shuffle(decls) if r.random() < 0.3 else None
     return {"library": name, "cxx_header": name + ".hpp", "language": "c++",
             "options": {"wrap_python": r.random() < 0.6, "wrap_lua": r.random() < 0.4}, "declarations": decls}
@@ -591,7 +636,7 @@ def feature_items(thorough, r, work, corpus_items):
     """generated feature libraries and corpus libraries, each with user splicers for harvested block names"""
     cands = []
     for i in range(10 if thorough else 4):
-        d = gen_feature_lib(r, "fl%d" % i)
+        d = gen_feature_lib(r, "fl%d" % i, i)
         y = shroudrun.write_yaml(work, "fl%d_0.yaml" % i, dump_yaml(d))
         cands.append((dict(label="gen:fl%d" % i, yaml=y, options=[], language=None, path=[work]), d, "fl%d" % i))
     for it in corpus_items:
